@@ -9,6 +9,7 @@ package main
 // executed and no external solver is used.
 
 import (
+	"go/constant"
 	"fmt"
 	"go/token"
 	"go/types"
@@ -354,6 +355,11 @@ func (s *scope) blockFacts(pr *proof, blk *ssa.BasicBlock) {
 				}
 			}
 		}
+		// a module predicate: isValid(x) returned true / false — the facts of the callee's
+		// returns that can yield that value
+		if cl, isCall := unspill(f.Cond).(*ssa.Call); isCall && isBoolType(cl.Type()) {
+			s.boolCaseSplit(pr, cl, f.Pol)
+		}
 		if x, isNil, ok := FactNilCmp(f); ok {
 			if c, idx := callOf(unspill(x)); c != nil {
 				if s.onPath && isErrorType(x.Type()) {
@@ -369,6 +375,73 @@ func (s *scope) blockFacts(pr *proof, blk *ssa.BasicBlock) {
 			}
 		}
 	}
+}
+
+// boolCaseSplit: a module callee with a single bool result is known to have
+// returned want: one case per return statement (and, for a merged result, per
+// way it got its value) that can yield want, with the callee's facts there.
+func (s *scope) boolCaseSplit(pr *proof, call *ssa.Call, want bool) {
+	callee := call.Common().StaticCallee()
+	if callee == nil || !s.b.p.inModule(callee) || s.depth >= s.b.depthCap || callee.Blocks == nil {
+		return
+	}
+	if callee.Signature.Results().Len() != 1 {
+		return
+	}
+	for q := s; q != nil; q = q.parent {
+		if q.fn == callee {
+			return
+		}
+	}
+	key := fmt.Sprintf("boolcase:%s%p/%v", s.prefix, call, want)
+	if pr.seenSp[key] {
+		return
+	}
+	rets := returnsOf(callee)
+	if len(rets) == 0 || len(rets) > 12 {
+		return
+	}
+	ff := s.b.p.Facts(callee)
+	prefix := fmt.Sprintf("%s%s@%p/", s.prefix, callee.Name(), call)
+	cs := s.b.newScope(callee, prefix, s, call)
+	var cases [][]Cons
+	for _, r := range rets {
+		if ff.Infeasible(r.Block()) {
+			continue
+		}
+		rv := unspill(r.Results[0])
+		if k, ok := rv.(*ssa.Const); ok && k.Value != nil && k.Value.Kind() == constant.Bool {
+			if constant.BoolVal(k.Value) != want {
+				continue
+			}
+			sub := s.b.newProof()
+			sub.atoms, sub.done, sub.seenSp, sub.errNil, sub.errNon = pr.atoms, pr.done, pr.seenSp, pr.errNil, pr.errNon
+			cs.blockFacts(sub, r.Block())
+			cases = append(cases, sub.cons)
+			pr.queue = append(pr.queue, sub.queue...)
+			continue
+		}
+		// the ways the returned expression can have the wanted value
+		cond, pol := stripNot(rv, want)
+		alts := ff.Alternatives([]Fact{{cond, pol}}, 0)
+		if len(alts) == 0 {
+			alts = [][]Fact{{{cond, pol}}}
+		}
+		for _, alt := range alts {
+			sub := s.b.newProof()
+			sub.atoms, sub.done, sub.seenSp, sub.errNil, sub.errNon = pr.atoms, pr.done, pr.seenSp, pr.errNil, pr.errNon
+			cs.blockFacts(sub, r.Block())
+			for _, g := range alt {
+				cs.factCons(sub, g)
+			}
+			cases = append(cases, sub.cons)
+			pr.queue = append(pr.queue, sub.queue...)
+		}
+	}
+	if len(cases) == 0 {
+		cases = [][]Cons{{{linConst(1)}}}
+	}
+	pr.addSplit(key, cases)
 }
 
 // errCaseSplit: the error result of a module callee is known nil / non-nil:
@@ -1379,6 +1452,12 @@ func (b *Bounds) rangeAt(fn *ssa.Function, at ssa.Instruction, v ssa.Value) *iva
 					}
 				}
 			}
+			// constants of module callees (a range test moved into a predicate helper)
+			if call, ok := in.(ssa.CallInstruction); ok && d < 2 {
+				if callee := call.Common().StaticCallee(); callee != nil && b.p.inModule(callee) && callee.Blocks != nil {
+					calleeConsts(callee, cands)
+				}
+			}
 		})
 		for _, cs := range b.p.SitesOf(f) {
 			collect(cs.Caller, d+1)
@@ -1850,3 +1929,15 @@ func sliceDesc(x *ssa.Slice) string {
 }
 
 var _ = strings.Join
+
+func calleeConsts(fn *ssa.Function, cands map[int64]bool) {
+	allInstrs(fn, func(in ssa.Instruction) {
+		for _, op := range in.Operands(nil) {
+			if *op != nil {
+				if c, ok := intConst(*op); ok && c > -(1<<40) && c < 1<<40 {
+					cands[c], cands[c-1], cands[c+1] = true, true, true
+				}
+			}
+		}
+	})
+}
